@@ -152,7 +152,7 @@ class C07(Prop):
             "in one statement), or a numeric default of 1..25 digits (3 positions); plus a deterministic sweep of every "
             "printable character x 6 shapes x every position; non-trivial = body contains a punctuation character or a "
             "keyword-shaped word, or is numeric with >= 10 digits; distinct = SHA-1 of (position, body)")
-    budgets = {"quick": 5000, "thorough": 300000}
+    budgets = {"quick": 9000, "thorough": 300000}
     assumptions = [
         "literals hit by known findings K1 (frozen simulation of the three spacing substitutions changes the literal), K2 (word char "
         "before '='), K3 (non-ASCII, backslash, control), K4 (comment delimiters), K14 ('' in OPTIONS), K15 ('=' in TBLPROPERTIES) are "
